@@ -6,7 +6,9 @@ Pairs == ndJsonDeserialize("pairs.ndjson")
 
 VARIABLE l
 Init == l = 1
-Holds(x) == IF x.kind = "grows" THEN GrowsOK(x.p, x.f) ELSE IsPrefixVal(x.p, x.f)
+Holds(x) == IF x.kind = "grows" THEN GrowsOK(x.p, x.f)
+            ELSE IF x.kind = "prefix-strict" THEN IsPrefixStrict(x.p, x.f)
+            ELSE IsPrefixVal(x.p, x.f)
 Next == l <= Len(Pairs) /\ Holds(Pairs[l]) /\ l' = l + 1
 Spec == Init /\ [][Next]_l
 AllAccepted == TLCGet("stats").diameter - 1 = Len(Pairs)
